@@ -81,6 +81,7 @@ func sgInitTables() bool {
 		{reflect.TypeFor[SGSliceD](), "slice"}, {reflect.TypeFor[SGSliceU](), "slice"},
 		{reflect.TypeFor[SGArrReg](), "none"}, {reflect.TypeFor[SGMapReg](), "none"}, {reflect.TypeFor[SGRecReg](), "none"},
 		{reflect.TypeFor[SGLongNL](), "long"},
+		{reflect.TypeFor[SGArrB](), "arr"}, {reflect.TypeFor[SGArrC](), "arr"}, {reflect.TypeFor[SGMapSchB](), "mapsch"},
 		{reflect.TypeFor[SGTagE](), "none"},
 		// unnamed types can be registered too (PkgPath() == "" and Name() == "")
 		{reflect.TypeFor[[]SGTagE](), "none"}, {reflect.TypeFor[map[string]SGTagE](), "none"},
@@ -380,7 +381,7 @@ func (c *sgCodec) Read(r *avro.ReadBuf, p unsafe.Pointer) error {
 			return err
 		}
 		*(*sgStructVal)(p) = sgStructVal{n, bs}
-	case "slice":
+	case "slice", "arr", "mapsch":
 		s, err := c.rdString(r)
 		if err != nil {
 			return err
@@ -419,7 +420,7 @@ func (c *sgCodec) Omit(p unsafe.Pointer) bool {
 		return *(*string)(p) == ""
 	case "struct":
 		return *(*sgStructVal)(p) == sgStructVal{}
-	case "slice":
+	case "slice", "arr", "mapsch":
 		return len(*(*[]int32)(p)) == 0
 	}
 	return false
@@ -440,7 +441,7 @@ func (c *sgCodec) Write(w *avro.WriteBuf, p unsafe.Pointer) {
 	case "struct":
 		v := *(*sgStructVal)(p)
 		c.wrString(w, strconv.FormatInt(v.A, 10)+":"+v.B)
-	case "slice":
+	case "slice", "arr", "mapsch":
 		v := *(*[]int32)(p)
 		b := make([]byte, 4*len(v))
 		for i, x := range v {
@@ -1059,6 +1060,10 @@ func sgCore(kind string) (avro.Schema, string) {
 		return sPrim("string"), "string"
 	case "slice":
 		return sPrim("bytes"), "bytes"
+	case "arr": // the custom encoding is the slice kind's; only the registered schema differs
+		return sArray(sPrim("int")), "array"
+	case "mapsch":
+		return sMap(sPrim("int")), "map"
 	}
 	panic("harness: no core schema for " + kind)
 }
@@ -1076,6 +1081,8 @@ func c20Variants() []sgVariant {
 		{"long", []reflect.Type{reflect.TypeFor[SGLongB](), reflect.TypeFor[SGLongC](), reflect.TypeFor[SGLongD]()}, reflect.TypeFor[SGLongU]()},
 		{"slice", []reflect.Type{reflect.TypeFor[SGSliceB](), reflect.TypeFor[SGSliceC](), reflect.TypeFor[SGSliceD]()}, reflect.TypeFor[SGSliceU]()},
 		{"str", []reflect.Type{reflect.TypeFor[SGStrB]()}, nil},
+		{"arr", []reflect.Type{reflect.TypeFor[SGArrB](), reflect.TypeFor[SGArrC]()}, nil},
+		{"mapsch", []reflect.Type{reflect.TypeFor[SGMapSchB]()}, nil},
 	}
 	for _, f := range fams {
 		core, acc := sgCore(f.kind)
